@@ -158,6 +158,22 @@ def check_random_casing(desc, ctx):
     if v.lower() != s.lower():
         return  # characters whose case mapping is not a bijection
     owner = _owner(e["name"])
+    order = (mask >> 27) & 3
+    if order:
+        # a user's private adsorbate object carrying the same spelling (not stored in the registry) passes through
+        # the lookup as itself and does not change what the string designates, whichever is looked up first
+        priv = Adsorbate(v, store=False, molar_mass=1.0)
+        if order == 1:
+            _resolve(v, owner, "random casing")
+        iso = BaseIsotherm(material="m-0", adsorbate=e["name"], temperature=300,
+                           pressure_mode="absolute", pressure_unit="bar", loading_basis="molar", loading_unit="mmol",
+                           material_basis="mass", material_unit="g", temperature_unit="K")
+        iso.adsorbate = priv
+        if Adsorbate.find(priv) is not priv or iso.adsorbate is not priv:
+            raise Violation(f"a private Adsorbate({v!r}) object handed to find() / an isotherm came back as another object "
+                            f"(find: {'registry entry' if Adsorbate.find(priv) is owner else 'other'}, lookup of the "
+                            f"string {'before' if order == 1 else 'after'})", tag="private_object_replaced")
+        ctx.label("private_namesake")
     _resolve(v, owner, "random casing")
     if not (owner == v):
         raise Violation(f"adsorbate {owner.name!r} != its own designation {v!r}", tag="eq_string")
